@@ -38,6 +38,9 @@ def run(ctx):
     mc_converge(ctx, quick)
     limit = 900 if quick else 30000
     profiles = ["huawei", "cisco"] if quick else ["huawei", "cisco", "pc", "arista", "h3c", "nexus"]
+    import os
+    if os.environ.get("VERIF_PROFILES"):          # debugging aid: restrict the vendor profiles of this run
+        profiles = os.environ["VERIF_PROFILES"].split(",")
     total_exh = True
     for pi, prof in enumerate(profiles):
         cat = cases.Catalog(ctx, prof)
